@@ -47,6 +47,11 @@ class WsConnT:
     def vanish(self):
         self.vanished = True
 
+    def stall(self, dur):
+        """The peer drains slowly: the server's writes on this socket
+        block until dur from now."""
+        self.stall_until = self.sim.now + dur
+
     def texts(self):
         return [f['frame'] for f in self.frames]
 
@@ -112,6 +117,9 @@ class TWebSocket:
             raise OSError('closed')
         if c.client_closed or c.send_fails:
             raise OSError('peer gone')
+        rem = getattr(c, 'stall_until', 0) - self.sim.now
+        if rem > 0:
+            vsched.vsleep(self.sim.sched, rem)      # a blocking send()
         # a scenario may ask for ONE write (the n-th of the whole run) to
         # time out, as a socket with a time-out set does on a slow peer
         n = getattr(self.sim, '_ws_writes', 0) + 1
